@@ -16,10 +16,11 @@ Section P.
 
   Lemma HX_parts : rb_formcond X = true /\ rb_eval X = true /\ rb_condtrue X = true /\ rb_operr X = true
                    /\ commit_stale_status X = false
-                   /\ (commit_clears_on_err X = true \/ close_skips_open_tx X = false) /\ defer_close X = true.
+                   /\ (commit_clears_on_err X = true \/ close_skips_open_tx X = false) /\ defer_close X = true
+                   /\ ops_in_tx X = true.
   Proof.
     unfold shape_closed in HX. repeat rewrite andb_true_iff in HX.
-    destruct HX as [[[[[[H1 H2] H3] H4] H5] H6] H7].
+    destruct HX as [[[[[[[H1 H2] H3] H4] H5] H6] H7] H8].
     apply negb_true_iff in H5. apply orb_true_iff in H6. rewrite negb_true_iff in H6. tauto.
   Qed.
 
@@ -34,8 +35,11 @@ Section P.
   Proof. intros (Hd & Hw & Ht & Hp). unfold db_rollback, is_back. rewrite Hp. cbn. auto. Qed.
   Lemma rollback_back init d : is_back init d -> is_back init (db_rollback St d).
   Proof. intros (Hd & Hw & Ht & Hp). unfold db_rollback. rewrite Hp. unfold is_back. auto. Qed.
-  Lemma exec_open init w i d : is_open init w d -> is_open init (eff i w) (db_exec St eff i d).
-  Proof. intros (Hd & Hw & Ht & Hp). unfold db_exec, is_open. cbn. rewrite Hw. cbn. auto. Qed.
+  Lemma exec_open init w i d : is_open init w d -> is_open init (eff i w) (db_exec St eff X i d).
+  Proof.
+    destruct HX_parts as (_ & _ & _ & _ & _ & _ & _ & H8).
+    intros (Hd & Hw & Ht & Hp). unfold db_exec, is_open. rewrite H8. cbn. rewrite Hw. cbn. auto.
+  Qed.
 
   Lemma conds_spec cs :
     match conds X cs with
@@ -72,8 +76,8 @@ Section P.
       + pose proof (conds_spec (t_conds t)) as Hc.
         destruct (conds X (t_conds t)) as [|rb st].
         * rewrite Hc. cbn [andb].
-          specialize (IH init (eff (t_op t) w) (db_exec St eff (t_op t) d) (exec_open _ _ _ _ Ho) Hsr).
-          destruct (loop St eff X r (db_exec St eff (t_op t) d)) as [d' [st|]]; cbn [apply_all fold_left] in *; auto.
+          specialize (IH init (eff (t_op t) w) (db_exec St eff X (t_op t) d) (exec_open _ _ _ _ Ho) Hsr).
+          destruct (loop St eff X r (db_exec St eff X (t_op t) d)) as [d' [st|]]; cbn [apply_all fold_left] in *; auto.
         * destruct Hc as (Hc1 & -> & Hc3). rewrite Hc1. cbn [andb].
           split; [reflexivity|]. split; [eapply rollback_open; eapply exec_open; eauto|auto].
       + cbn [andb]. rewrite H4. split; [reflexivity|]. split.
@@ -89,7 +93,7 @@ Section P.
   Lemma close_back init d : is_back init d ->
     let (d', c) := db_close St X d in c = true /\ d' = d.
   Proof.
-    destruct HX_parts as (_ & _ & _ & _ & _ & _ & H7).
+    destruct HX_parts as (_ & _ & _ & _ & _ & _ & H7 & _).
     intros (Hd & Hw & Ht & Hp). unfold db_close. rewrite H7, Hp, Ht. cbn. auto.
   Qed.
 
@@ -100,7 +104,7 @@ Section P.
     /\ (r_status r = 200 <-> succeeds p ts commit_ok = true)
     /\ durable (r_db r) = (if succeeds p ts commit_ok then apply_all St eff ts init else init).
   Proof.
-    destruct HX_parts as (_ & _ & _ & _ & H5 & H6 & H7).
+    destruct HX_parts as (_ & _ & _ & _ & H5 & H6 & H7 & _).
     intros p ts cok cst init Hp Hs Hc.
     assert (Hempty : forall q, q <> PreDecodeErr -> ts = [] ->
               let r := handler St eff X q ts cok cst init in
@@ -151,6 +155,13 @@ Lemma old_refuted_commit :
   let r := handler (list nat) log_eff old_shape PreOk w_commit false 500 [] in
   r_status r = 200 /\ durable (r_db r) = [] /\ apply_all (list nat) log_eff w_commit [] <> [] /\ r_closed r = false.
 Proof. vm_compute. repeat split; auto. discriminate. Qed.
+
+(* a source in which an operation's statement bypasses the transaction: the request fails, yet the statement stays *)
+Definition bypass_shape := mkShape true true true true false true true true false.
+Lemma bypass_refuted :
+  let r := handler (list nat) log_eff bypass_shape PreOk [mkTask 7 OpOk []; mkTask 8 (OpFail 404) []] true 500 [] in
+  r_status r = 404 /\ durable (r_db r) = [7%nat] /\ tx (r_db r) = TRolledBack.
+Proof. vm_compute. auto. Qed.
 
 Lemma fixed_closed : shape_closed fixed_shape = true.
 Proof. reflexivity. Qed.
